@@ -415,7 +415,13 @@ def crash_extra(pid, tier, seed, powerloss):
                 ntorn += 1 if 'torn=' in img['header'] else 0
                 dist[wname.split('-k')[0]] = dist.get(wname.split('-k')[0], 0) + 1
                 fails = (p_image_pl if powerloss else p_image)(name, img, states, run_ops)
+                # time lookups and Check are claimed only for directories whose publish times never went back over
+                # their whole life - deleted messages included, which the recovered log no longer shows; the 'b'
+                # workloads publish such times (the writer's carried timestamp, DESIGN 12.4)
+                back_times = re.search(r'k\dt1bv', name) is not None
                 for cl, op, got in viewfails.get(name, []):
+                    if back_times and cl in ('get_by_time', 'closed_segments_check', 'offset_by_time'):
+                        continue
                     fails.append(('views_agree:' + cl, '%s -> %s' % (op, got)))
                 nview += 1
                 sig = crash_signature(img, run_ops)
